@@ -30,7 +30,7 @@ def biased(rng, w):
 
 
 class Congruence:
-    def __init__(self, seed=0, nsim=10, extra_vars=None):
+    def __init__(self, seed=0, nsim=7, extra_vars=None):
         self.rng = random.Random(seed)
         self.nsim = nsim
         self.evals = None
@@ -41,7 +41,28 @@ class Congruence:
         self.resset = set()
         self.failed = False
 
-    def _init_evals(self, vals):
+    def _init_evals(self, vals, pc=()):
+        self._init_evals0(list(vals) + [c for c, v in pc])
+        if pc:
+            # variables the path condition talks about are re-sampled until it holds; all others keep their corner values
+            pcvars, _ = T.support([c for c, v in pc])
+            keep = []
+            for ev in self.evals:
+                ok = all(ev.val(c) == (1 if v else 0) for c, v in pc)
+                tries = 0
+                while not ok and tries < 60:
+                    tries += 1
+                    asg = dict(ev.assign)
+                    for n in pcvars:
+                        w = self.names[n]
+                        asg[n] = self.rng.getrandbits(w) if tries % 2 else biased(self.rng, w)
+                    ev = T.Evaluator(asg)
+                    ok = all(ev.val(c) == (1 if v else 0) for c, v in pc)
+                if ok:
+                    keep.append(ev)
+            self.evals = keep
+
+    def _init_evals0(self, vals):
         names = {}
         seen = set()
         stack = []
@@ -57,6 +78,7 @@ class Congruence:
                 names[args] = w
             else:
                 stack.extend(T.node_deps(j))
+        self.names = names
         self.evals = []
         for i in range(self.nsim):
             if i == 0:
@@ -103,8 +125,6 @@ class Congruence:
 
     def _eqv(self, a, b):
         if T.width(a) != T.width(b):
-            return False
-        if self.sig_val(a) != self.sig_val(b):
             return False
         bounds = T.boundaries([a, b])
         pa = T._pieces(a, bounds)
@@ -304,14 +324,305 @@ class Congruence:
         return False
 
 
-def reduce_pairs(pairs, seed=0):
+def reduce_pairs(pairs, seed=0, pc=()):
     """returns (ok, residual_pairs). ok=False: simulation found a difference or structure could not be matched."""
     diff = [(g, e) for g, e in pairs if g != e]
     if not diff:
         return True, []
     c = Congruence(seed)
-    c._init_evals([x for p in diff for x in p])
+    c._init_evals([x for p in diff for x in p], pc)
+    if not c.evals:
+        return False, []
     for g, e in diff:
         if not c.eqv(g, e):
             return False, []
     return True, c.residual
+
+
+def corner_assignments(names, rng, nrand=4):
+    """assignments used both as simulation signatures and as strengthened (constant-input) queries"""
+    out = []
+    for pat in (0xffffffff, 0xfffffffe, 0xfffffffd, 0xfffffffc, 0, 1, 0x80000000, 0x7fffffff):
+        out.append({n: int.from_bytes(pat.to_bytes(4, 'little') * ((w + 31) // 32), 'little') & ((1 << w) - 1) for n, w in names.items()})
+    for _ in range(nrand):
+        out.append({n: rng.getrandbits(w) for n, w in names.items()})
+    for _ in range(nrand * 3):
+        out.append({n: biased(rng, w) for n, w in names.items()})
+    # mixed: each variable independently takes a corner or a random value
+    for _ in range(nrand * 3):
+        a = {}
+        for n, w in names.items():
+            p = rng.random()
+            if p < 0.5:
+                a[n] = rng.getrandbits(w)
+            else:
+                pat = rng.choice([0xffffffff, 0xfffffffe, 0xfffffffd, 0xfffffffc, 0, 1, 2, 3])
+                a[n] = int.from_bytes(pat.to_bytes(4, 'little') * ((w + 31) // 32), 'little') & ((1 << w) - 1)
+        out.append(a)
+    return out
+
+
+def simulate_difference(pairs, pc, seed=0):
+    """try constant inputs: returns an assignment under which pc holds and some pair differs, else None"""
+    vals = [x for p in pairs for x in p] + [c for c, v in pc]
+    names = {}
+    seen = set()
+    stack = []
+    for v in vals:
+        stack.extend(T.value_deps(v))
+    while stack:
+        j = stack.pop()
+        if j in seen:
+            continue
+        seen.add(j)
+        op, w, args = T.nodes[j]
+        if op == 'var':
+            names[args] = w
+        else:
+            stack.extend(T.node_deps(j))
+    rng = random.Random(seed)
+    cands = corner_assignments(names, rng, nrand=1)
+    # cheap order: one random vector first (a wrong core differs on almost every input), then the carry corners
+    cands = [cands[8]] + cands[:4] + cands[9:12] + cands[12:15]
+    for asg in cands:
+        ev = T.Evaluator(asg)
+        ok = True
+        for c, v in pc:
+            if ev.val(c) != (1 if v else 0):
+                ok = False
+                break
+        if not ok:
+            continue
+        for g, e in pairs:
+            if ev.val(g) != ev.val(e):
+                return asg
+    return None
+
+
+# ------------------------------------------------------------------------------------------------------------
+# Simulation-guided merging of small cones (SAT sweeping restricted to cheap nodes) + substitution.
+#
+# Structurally parallel computations usually differ only in small input cones (counter arithmetic that the optimiser
+# narrowed, widened or split). Find those cones by simulation signature, prove each candidate equality with the
+# solver (tiny queries), substitute the proved representative and rebuild both sides through the canonicalising
+# constructors; the big DAGs then become syntactically identical and never reach the solver.
+
+def _levels(roots):
+    level = {}
+    order = []
+    stack = list(roots)
+    while stack:
+        j = stack[-1]
+        if j in level:
+            stack.pop()
+            continue
+        deps = T.node_deps(j)
+        todo = [d for d in deps if d not in level]
+        if todo:
+            stack.extend(todo)
+            continue
+        level[j] = 0 if T.nodes[j][0] == 'var' else 1 + max([level[d] for d in deps] + [0])
+        order.append(j)
+        stack.pop()
+    return level, order
+
+
+def _cone_sizes(order, cap=64):
+    """number of distinct non-variable nodes in the fan-in cone of each node (capped)"""
+    cones = {}
+    size = {}
+    for j in order:
+        if T.nodes[j][0] == 'var':
+            cones[j] = frozenset()
+            size[j] = 0
+            continue
+        acc = {j}
+        big = False
+        for d in T.node_deps(j):
+            c = cones[d]
+            if c is None:
+                big = True
+                break
+            acc |= c
+            if len(acc) > cap:
+                big = True
+                break
+        if big:
+            cones[j] = None
+            size[j] = cap + 1
+        else:
+            cones[j] = frozenset(acc)
+            size[j] = len(acc)
+    return size
+
+
+def rebuild(vals, mapping):
+    """apply slice substitutions {(node, lo, n): value} bottom-up through the canonicalising constructors"""
+    roots = set()
+    for v in vals:
+        roots.update(T.value_deps(v))
+    for rep in mapping.values():
+        roots.update(T.value_deps(rep))
+    level, order = _levels(roots)
+    bynode = {}
+    for (nid, a, m), rep in mapping.items():
+        bynode.setdefault(nid, []).append((a, m, rep))
+    dirty = set()
+    for j in order:
+        if j in bynode or any(d in dirty for d in T.node_deps(j)):
+            dirty.add(j)
+    memo = {}
+
+    def leaf(nid, lo, n):
+        """value of node[lo:lo+n] after substitution"""
+        for a, m, rep in bynode.get(nid, ()):
+            if a <= lo and lo + n <= a + m:
+                return T.extract(sv(rep), lo - a, n)
+        if bynode.get(nid):
+            # partially covered: split at the mapped boundaries
+            cuts = sorted({lo, lo + n} | {x for a, m, rep in bynode[nid] for x in (a, a + m) if lo < x < lo + n})
+            if len(cuts) > 2:
+                return T.concat([leaf(nid, cuts[i], cuts[i + 1] - cuts[i]) for i in range(len(cuts) - 1)])
+        return T.extract(nv(nid), lo, n)
+
+    def sv(v):
+        segs = []
+        changed = False
+        for l, c, n in v:
+            if any(nid in dirty for nid, lo in l):
+                changed = True
+                parts = [leaf(nid, lo, n) for nid, lo in l]
+                if c:
+                    parts.append(T.const(c, n))
+                segs.extend(T.bxor(*parts) if len(parts) > 1 else parts[0])
+            else:
+                segs.append((l, c, n))
+        return T.norm(segs) if changed else v
+
+    def nv(j):
+        if j not in dirty:
+            return T.full(j)
+        r = memo.get(j)
+        if r is not None:
+            return r
+        op, w, args = T.nodes[j]
+        if not any(d in dirty for d in T.node_deps(j)):
+            r = T.full(j)
+        elif op == 'add':
+            r = T.lin(w, [(sv(t), k) for t, k in args[0]], args[1])
+        elif op == 'and1':
+            r = T.const(1, 1)
+            for a in args:
+                r = T.and1(r, sv(a))
+        elif op == 'eqz':
+            r = T.eqz(sv(args))
+        elif op == 'ult':
+            r = T.ult(sv(args[0]), sv(args[1]))
+        elif op == 'ite':
+            r = T.ite(sv(args[0]), sv(args[1]), sv(args[2]))
+        elif op == 'mul':
+            r = T.mul(sv(args[0]), sv(args[1]))
+        elif op == 'udiv':
+            r = T.udiv(sv(args[0]), sv(args[1]))
+        elif op == 'urem':
+            r = T.urem(sv(args[0]), sv(args[1]))
+        elif op == 'uf':
+            r = T.uf(args[0], w, [sv(a) for a in args[1:]])
+        else:
+            raise Exception('rebuild ' + op)
+        memo[j] = r
+        return r
+    for j in order:
+        if j in dirty:
+            nv(j)
+    return [sv(v) for v in vals]
+
+
+def merge_small_cones(pairs, pc=(), maxcone=12, seed=0, solve=None, maxcand=400):
+    """returns (new_pairs, n_merged, n_queries). solve(pairs, pc) -> 'unsat'/... proves a list of equalities at once"""
+    vals = [x for p in pairs for x in p]
+    roots = set()
+    for v in vals:
+        roots.update(T.value_deps(v))
+    for c, _ in pc:
+        roots.update(T.value_deps(c))
+    level, order = _levels(roots)
+    csize = _cone_sizes(order)
+    cheap = [j for j in order if T.nodes[j][0] != 'var' and csize[j] <= maxcone]
+    if not cheap:
+        return pairs, 0, 0
+    names = {T.nodes[j][2]: T.nodes[j][1] for j in order if T.nodes[j][0] == 'var'}
+    rng = random.Random(seed)
+    asgs = corner_assignments(names, rng, nrand=2)
+    evals = []
+    for a in asgs:
+        ev = T.Evaluator(a)
+        if all(ev.val(c) == (1 if v else 0) for c, v in pc):
+            evals.append(ev)
+    tries = 0
+    while len(evals) < 6 and tries < 300:
+        tries += 1
+        ev = T.Evaluator({n: (rng.getrandbits(w) if tries % 2 else biased(rng, w)) for n, w in names.items()})
+        if all(ev.val(c) == (1 if v else 0) for c, v in pc):
+            evals.append(ev)
+    if not evals:
+        return pairs, 0, 0
+
+    def sig(v):
+        return (T.width(v),) + tuple(ev.val(v) for ev in evals)
+    # entities: whole cheap nodes and their word-aligned slices; representatives additionally: word slices of variables
+    cands = {}
+
+    def addc(v, rank):
+        s = sig(v)
+        cur = cands.get(s)
+        if cur is None or rank < cur[0]:
+            cands[s] = (rank, v)
+
+    def entities(j):
+        w = T.nodes[j][1]
+        out = [(0, w)]
+        for g in (32, 64):
+            if w > g and w % g == 0 and w <= 1024:
+                out += [(g * i, g) for i in range(w // g)]
+        return out
+    for j in order:
+        if T.nodes[j][0] == 'var':
+            f = T.full(j)
+            for a, m in entities(j):
+                addc(T.extract(f, a, m), (0, 0, j, a))
+    for j in cheap:
+        f = T.full(j)
+        for a, m in entities(j):
+            addc(T.extract(f, a, m), (1 if m == T.nodes[j][1] else 2, csize[j], j, a))
+    obligations = []
+    for j in cheap:
+        f = T.full(j)
+        for a, m in entities(j):
+            e = T.extract(f, a, m)
+            rank, rep = cands[sig(e)]
+            if rep != e and rank < (1 if m == T.nodes[j][1] else 2, csize[j], j, a):
+                obligations.append(((j, a, m), e, rep))
+        if len(obligations) >= maxcand:
+            break
+    if not obligations:
+        return pairs, 0, 0
+    mapping = {}
+    nq = 1
+    st = solve([(e, rep) for k, e, rep in obligations], pc)
+    if st == 'unsat':
+        for k, e, rep in obligations:
+            mapping[k] = rep
+    else:
+        for k, e, rep in obligations:
+            nq += 1
+            if solve([(e, rep)], pc) == 'unsat':
+                mapping[k] = rep
+    # a whole-node substitution makes slice substitutions of the same node redundant
+    whole = {k[0] for k in mapping if k[1] == 0 and k[2] == T.nodes[k[0]][1]}
+    mapping = {k: v for k, v in mapping.items() if not (k[0] in whole and not (k[1] == 0 and k[2] == T.nodes[k[0]][1]))}
+    if not mapping:
+        return pairs, 0, nq
+    flat = rebuild(vals, mapping)
+    newpairs = [(flat[2 * i], flat[2 * i + 1]) for i in range(len(pairs))]
+    return newpairs, len(mapping), nq
